@@ -864,14 +864,20 @@ func (s *Sim) crashPoint(ref *crashRef, k int, mode string) {
 					what = "a vote or proposal"
 				}
 				whereC := where
-				for _, rg := range startSigs {
-					if r.Seq >= rg[0] && r.Seq < rg[1] && r.Kind == "proposal" && !strings.HasPrefix(where, "node rewound") {
-						// call site rather than window: the replay of the consensus log re-enters the
-						// propose step and signs (whatever the crash point was)
-						whereC = "signed while the consensus log was being replayed at start-up"
+				rewound := strings.HasPrefix(where, "node rewound")
+				notReplayed := replayErr != "" && replayErrH == r.Height
+				if r.Kind == "proposal" && !rewound && !notReplayed {
+					// A proposer signs again for a round it had already proposed in: named by call site
+					// rather than by crash window (it happens on any restart that replays such a round,
+					// a second crash changes nothing about it).
+					whereC = "signed after start-up although the replayed consensus log already held the round's proposal"
+					for _, rg := range startSigs {
+						if r.Seq >= rg[0] && r.Seq < rg[1] {
+							whereC = "signed while the consensus log was being replayed at start-up"
+						}
 					}
 				}
-				if replayErr != "" && replayErrH == r.Height && !strings.HasPrefix(where, "node rewound") {
+				if notReplayed && !rewound {
 					// the node started without replaying its consensus log of this very height:
 					// whatever it had signed there is forgotten
 					whereC += "; the consensus log of that height was not replayed at start-up: " + replayErr
